@@ -29,7 +29,7 @@ def _compute(tier, seed):
     res = pmap(replay_plots.replay_bands, [(rec, seed) for rec in bands]) + \
         pmap(replay_plots.replay_routing, [(rec, seed) for rec in routing])
     return dict(runs=[rb.summary(), rr.summary()], n=len(bands) + len(routing), results=res,
-                residual=replay_plots.residual_checks(seed), samples=[bands[len(bands) // 2], routing[len(routing) // 2]])
+                residual=replay_plots.residual_checks(seed) + replay_plots.cohort_checks(seed), samples=[bands[len(bands) // 2], routing[len(routing) // 2]])
 
 
 def run(tier, seed):
